@@ -1206,8 +1206,10 @@ void Lexer::lexStringLiteral(SyntaxToken* tk, unsigned char prefix)
         tk->syntaxK_ = SyntaxKind::StringLiteral_U_Token;
     else if (prefix == 'u')
         tk->syntaxK_ = SyntaxKind::StringLiteral_u_Token;
-    else if (prefix == '8')
+    else if (prefix == '8') {
         tk->syntaxK_ = SyntaxKind::StringLiteral_u8_Token;
+        prefixSize = 2;
+    }
     else {
         tk->syntaxK_ = SyntaxKind::StringLiteralToken;
         prefixSize = 0;
@@ -1346,7 +1348,6 @@ void Lexer::lexUntilQuote(SyntaxToken* tk, unsigned char quote, unsigned int acc
     }
 
     int yyleng = yytext_ - yytext + 1;
-    yyleng += accLeng;
 
     if (yychar_ == quote)
         yyinput();
